@@ -81,6 +81,14 @@ class Cov(np.ndarray):
             new.frame = frame
         return new
 
+    def __copy__(self):
+        """``copy.copy()``: numpy's own ``__copy__`` loses the frame of the parent orbit"""
+        return self.copy()
+
+    def __deepcopy__(self, memo):
+        """``copy.deepcopy()``: same thing, see :py:meth:`__copy__`"""
+        return self.copy()
+
     def __array_finalize__(self, obj):
         if obj is None:
             return
